@@ -154,3 +154,4 @@ Print Assumptions C02_seek_accepts_in_range.
 Print Assumptions C02_constructors_stream_init.
 Print Assumptions C02_real_producers_spec.
 Print Assumptions C02_real_model_history_correct.
+Print Assumptions C02_example_history.
